@@ -43,6 +43,8 @@ func TestEngine(t *testing.T) {
 		runTwap(t, seed, n, dir)
 	case "router":
 		runRouter(t, seed, n, dir)
+	case "incentives":
+		runIncentives(t, seed, n, dir)
 	case "cl":
 		runCL(t, seed, n, dir)
 	default:
